@@ -24,6 +24,7 @@ import (
 //   spgroups     stream parser C<d>T<d> refilling one shared groups buffer; the handler adds the two numbers
 //   gnil         empty global table (GlobalValueLoadFunc -> nil) + identity GlobalValueLoadOverwriteFunc
 //   spexpr       stream parser: 'R' then an operand read with the stream's own ReadExpr; the handler evaluates the operand
+//   hookow:<hex> names served through the overwrite result of HookValueLoadPre, from a JSON variable map decoded per load
 //   gjson:<hex>  global variables served from a JSON variable map that is decoded afresh on every load
 //   rewr         identity CustomDetailRewriteFunc / CustomDetailSpanRewriteFunc
 // Output: "<ok VALUE d=DETAIL m=MATCHED r=REST seed=SEED|err MSG> vars=… calls=<hex log of handler calls>"
@@ -237,6 +238,20 @@ func customLine(t []string) string {
 					return v
 				}
 				vm.GlobalValueStoreFunc = func(name string, v *ds.VMValue) {}
+			case strings.HasPrefix(sp, "hookow:"):
+				// a host that serves some names itself, through the overwrite result of HookValueLoadPre (decoded per load)
+				doc, ok := unhx(sp[7:])
+				if !ok {
+					return "bad-op"
+				}
+				vm.Config.HookValueLoadPre = func(ctx *ds.Context, name string) (string, *ds.VMValue) {
+					m := &ds.ValueMap{}
+					if err := json.Unmarshal([]byte(doc), m); err != nil {
+						return name, nil
+					}
+					v, _ := m.Load(name)
+					return name, v
+				}
 			case sp == "spzero":
 				_ = vm.RegCustomDiceParser(func(ctx *ds.Context, s *ds.CustomDiceStream) (*ds.CustomDiceParseResult, error) {
 					return &ds.CustomDiceParseResult{Matched: true}, nil
